@@ -58,7 +58,10 @@ RULE = ("histories of simulation.set_input on one real Variable (float/int x day
         "through ONE numpy buffer of the variable's dtype refilled in place between calls.  Amounts are also "
         "passed as arrays of the variable's own dtype (not converted by the holder), as the SAME array object "
         "for two successive long periods, and as the array simulation.calculate returns for another variable "
-        "(whose stored value must stay what it was).  Non-trivial: at least one long input was accepted or "
+        "(whose stored value must stay what it was).  A big-int stream gives int variables amounts whose equal "
+        "share is an odd integer above 2^24 (exact in int32, not in binary32); a long-reading stream reads the "
+        "variable (simulation.calculate) for every piece of a window of 1080..1461 pieces around a long input, "
+        "then sums, confirms and contradicts the long period.  Non-trivial: at least one long input was accepted or "
         "refused as a contradiction; distinct as whole histories")
 TRUSTED = ["numpy float32 arithmetic on exactly representable dyadic values and int32 truncation are modelled by exact "
            "rationals / Z.quot in SetInput.v; covered by the correspondence only",
@@ -70,7 +73,8 @@ ASSUMPTIONS = ["the theorems give conservation (sum = amount) when the equal sha
                "there too and these cases are the OPEN known finding int-divide-truncates-share (model agrees)",
                "value equalities claimed for long periods tiled exactly by the definition period (same family, aligned "
                "start); other inputs are compared model-vs-code and for 'known values are never overwritten' only",
-               "memory storage only (no disk storage), variable not neutralized, |values| < 2^17, years 1990..2040"]
+               "variable not neutralized; float values dyadic with |x| < 2^17; int values within int32 (shares up to "
+               "2^31/k, above 2^24 in the big-int stream); years 1900..2040"]
 
 UNITS = [U.WEEKDAY, U.WEEK, U.DAY, U.MONTH, U.YEAR, U.ETERNITY]
 UCOQ = ["Weekday", "Week", "Day", "Month", "Year", "Eternity"]
@@ -157,6 +161,9 @@ def coq_case(c):
         if s.get("op") == "del":
             steps.append(f"(SDel {copt(s['p'], cperiod)})")
             continue
+        if s.get("op") == "calc":
+            steps.append(f"(SCalc {cperiod(s['p'])})")
+            continue
         vals = clist([cq(frac(x)) for x in s["vals"]])
         steps.append(f"(SSet {cperiod(s['p'])} {vals} {cbool(s.get('add', False))} {cbool(s.get('approx', False))})")
     return f"(KHist {cv} {cz(c['n'])} {clist(steps)})"
@@ -231,6 +238,16 @@ def run_history(c, name, sim):
             else:
                 sim.delete_arrays(name, period_arg(s)[1])
             out.append([0, dump(sim.get_holder(name)), None])
+            continue
+        if s.get("op") == "calc":
+            # the variable is read for every definition-period piece of the window
+            try:
+                for t in spec_tiles(c["var"]["def"], s["p"]):
+                    sim.calculate(name, mk_period([t[0], list(t[1]), t[2]]))
+                status = 0
+            except Exception as e:  # noqa: BLE001
+                status = Err(errkind(e), f"{type(e).__name__}: {e}"[:200])
+            out.append([status, dump(sim.get_holder(name)), None])
             continue
         P, arg = period_arg(s)
         if s.get("form") == "buf":
@@ -430,6 +447,21 @@ def oracle(c, obs):
             continue
         if len(after) != len(dmp):
             return f"duplicate-key: {where}: a period is listed twice among the known periods"
+        if s.get("op") == "calc":
+            # reading the variable leaves every value as it is; a piece without a value reads (and keeps) 0
+            if isinstance(status, Err):
+                return f"calculate-failed: {where}: {status.kind} {status.msg}"
+            expect = dict(before)
+            for t in spec_tiles(v["def"], s["p"]):
+                expect.setdefault(t, [F(0)] * n)
+            for k, vals in before.items():
+                if k not in after:
+                    return f"known-forgotten: {where}: {k} held {vals} and is not known any more after reading the variable"
+            if after != expect:
+                bad = [k for k in expect if after.get(k) != expect[k]][:3]
+                return f"calculate-changed: {where}: after reading the variable {bad} hold {[after.get(k) for k in bad]}"
+            before = after
+            continue
         if rule in ("div", "dis"):
             for k, vals in before.items():
                 if k not in after:
@@ -521,7 +553,7 @@ def known(c, obs, msg):
     before = {}
     for s, o in zip(c["steps"], obs):
         after = {key_of(k): vals for k, vals in o[1]}
-        if s.get("op") != "del" and claimed(c, s) and not isinstance(o[0], Err):
+        if s.get("op") not in ("del", "calc") and claimed(c, s) and not isinstance(o[0], Err):
             T = spec_tiles(v["def"], s["p"])
             unknown = [t for t in T if t not in before]
             if unknown:
@@ -569,6 +601,8 @@ def classify(c, o):
         tag += ":disk"
     if any(s.get("op") == "del" for s in c["steps"]):
         tag += ":del"
+    if any(s.get("op") == "calc" for s in c["steps"]):
+        tag += ":calc"
     if any(s.get("approx") for s in c["steps"]):
         tag += ":approx"
     if isinstance(o, Err):
@@ -588,6 +622,10 @@ def normalise(c):
         s = dict(s)
         if s.get("op") == "del":
             ref.delete(s["p"])
+            steps.append(s)
+            continue
+        if s.get("op") == "calc":
+            ref.calc(s["p"])
             steps.append(s)
             continue
         s.pop("approx", None)
@@ -620,7 +658,7 @@ def shrink(c, still_fails):
             else:
                 i += 1
         if cur["n"] > 1:
-            cand = normalise(dict(cur, n=1, steps=[s if s.get("op") == "del" else dict(s, vals=s["vals"][:1])
+            cand = normalise(dict(cur, n=1, steps=[s if s.get("op") in ("del", "calc") else dict(s, vals=s["vals"][:1])
                                                    for s in cur["steps"]]))
             if still_fails(cand):
                 cur, progress = cand, True
@@ -633,7 +671,7 @@ def neighbours(c, rng):
         for vt in ("float", "int"):
             d = dict(c)
             d["var"] = dict(c["var"], rule=rule, vt=vt)
-            d["steps"] = [s if s.get("op") == "del" else dict(s, vals=[int(frac(x)) for x in s["vals"]])
+            d["steps"] = [s if s.get("op") in ("del", "calc") else dict(s, vals=[int(frac(x)) for x in s["vals"]])
                           for s in c["steps"]]
             out.append(normalise(d))
     out.append(dict(c, disk=not c.get("disk"),
@@ -690,6 +728,10 @@ class Ref:
             self.h = {}
         else:
             self.h = {k: v for k, v in self.h.items() if k[0] == ETER or P[0] == ETER or not span_contains(P, k)}
+
+    def calc(self, P):
+        for t in spec_tiles(self.var["def"], P):
+            self.h.setdefault(t, [F(0)] * self.n)
 
     def known_sum(self, T):
         return [sum((self.h[t][e] for t in T if t in self.h), F(0)) for e in range(self.n)]
@@ -892,6 +934,12 @@ class Builder:
         self.ref.delete(None if P is None else (P[0], tuple(P[1]), P[2]))
         self.steps.append({"op": "del", "p": P, "as_str": self.rng.random() < 0.4})
 
+    def calc(self, P):
+        if self.closed:
+            return
+        self.ref.calc((P[0], tuple(P[1]), P[2]))
+        self.steps.append({"op": "calc", "p": [P[0], list(P[1]), P[2]]})
+
     def tile_vals(self, small=False):
         return [rand_val(self.rng, self.var["vt"], small) for _ in range(self.n)]
 
@@ -1073,6 +1121,65 @@ def routing(rng, stream="routing"):
     return b.case()
 
 
+BIG = 2 ** 24
+INT32_MAX = 2 ** 31 - 1
+
+
+def big_int_shares(rng):
+    defu = rng.choice([MONTH, MONTH, DAY, YEAR, WK, WD])
+    var = {"vt": "int", "def": defu, "rule": "div", "end": None}
+    b = Builder(rng, var, rng.choice([1, 2]), "big-int", disk=rng.random() < 0.2)
+    cands = [P for P in long_periods(rng, defu) if tiled_exactly(defu, P) and 2 <= len(spec_tiles(defu, P)) <= 60]
+    base = rng.choice(cands)
+    T = tiles_as_periods(spec_tiles(defu, base))
+    for t in subset_pattern(rng, T, rng.choice(["none", "none", "one", "two", "random"])):
+        # a value set directly (one sub-period to fill): small, or above 2**24 and odd
+        vals = [rng.choice([rng.randrange(0, 1000), BIG + 1 + 2 * rng.randrange(0, 2000000)]) for _ in range(b.n)]
+        b.push(t, vals, "tile")
+    ref = b.ref
+    W = ref.walk((base[0], tuple(base[1]), base[2]))
+    k = sum(1 for t in W if t not in ref.h)
+    ksum = ref.known_sum(W)
+    if k > 0 and all(INT32_MAX - int(x) > k * (BIG + 1) for x in ksum):
+        vals = []
+        for e in range(b.n):
+            top = (INT32_MAX - int(ksum[e])) // k
+            share = rng.choice([BIG + 1, BIG + 3, 20000001, 2 * BIG + 1, BIG + 1 + 2 * rng.randrange(0, max(1, (top - BIG - 1) // 2))])
+            if share > top:
+                share = BIG + 1
+            vals.append(int(ksum[e]) + k * share)
+        b.push(base, vals, "long")
+    else:
+        b.long(base, mode="exact")
+    b.long(base, mode=rng.choice(["exact", "contradict"]))
+    return b.case()
+
+
+def long_reading(rng, i):
+    """A long input, then the variable is read for every piece of a window of more than 1024 pieces around
+    it, then the long period is summed, confirmed and contradicted."""
+    vt, rule = rng.choice(["float", "int"]), rng.choice(["div", "dis", "div"])
+    y = rng.choice([2001, 2011, 2019, 2020])
+    if i % 5 == 4:
+        defu, base, window = MONTH, [YEAR, [y, 1, 1], 1], [YEAR, [y - 88, 1, 1], 90]
+    else:
+        defu = DAY
+        base = rng.choice([[YEAR, [y, 1, 1], 1], [MONTH, [y, rng.randrange(1, 13), 1], 1], [MONTH, [y, 2, 1], 3]])
+        window = [YEAR, [y - rng.choice([0, 1, 2]), 1, 1], rng.choice([3, 4])]
+    var = {"vt": vt, "def": defu, "rule": rule, "end": None}
+    b = Builder(rng, var, 1, "long-reading")
+    T = tiles_as_periods(spec_tiles(defu, base))
+    for t in subset_pattern(rng, T, rng.choice(["none", "one", "two"])):
+        b.push(t, b.tile_vals(), "tile", form="list")
+    b.long(base, mode="exact")
+    b.calc(window)
+    b.long(base, mode="exact")          # everything is known: the amount equal to the sum is accepted,
+    b.long(base, mode="contradict")     # another one refused
+    nxt = [base[0], shift(base[1], base[2], base[0]), base[2]]
+    b.long(nxt, mode="exact")
+    return b.case()
+
+
 def generate(rng, tier):
     scale = {"quick": 1, "escalated": 4, "thorough": 25}[tier]
     cases = []
@@ -1113,6 +1220,12 @@ def generate(rng, tier):
         b.long(base, mode="indivisible")
         b.long(base, mode=rng.choice(["exact", "contradict"]))
         cases.append(b.case())
+    # F. int variables whose equal share is an integer above 2**24 (exact in int32, not in binary32)
+    for _ in range(36 * scale):
+        cases.append(big_int_shares(rng))
+    # G. the variable is read for more than 1024 periods around a long input (few: > 1000 tiles each)
+    for i in range(5 * scale):
+        cases.append(long_reading(rng, i))
     # E. routing, mismatches, eternity, malformed arrays, unaligned / cross-family inputs, end dates
     for _ in range(300 * scale):
         cases.append(routing(rng))
